@@ -422,6 +422,18 @@ def run(ctx: Ctx):
                 # copy of a packaged file under its own name (model independent)
                 const_names = ["<packaged file name>"]
             if const_names is not None:
+                # model-independent names: no stale file can survive, provided the write always happens
+                g0 = [s for s, _ in c if isinstance(s, (ast.If, ast.While, ast.Try))]
+                lg0 = None
+                for lp in loops:
+                    for s2 in lp.body:
+                        if s2 is st:
+                            break
+                        if isinstance(s2, ast.If) and any(isinstance(x, (ast.Continue, ast.Break)) for x in ast.walk(s2)):
+                            lg0 = s2
+                ctx.check(not g0 and lg0 is None, "write-unconditional", f"{plugin}:write:{ast.unparse(dest)[:40]}",
+                          "the write of an owned file is conditional (skipped for some files): content left by an earlier "
+                          "run or placed by hand survives under a name the plugin owns", rel, call.lineno)
                 ctx.ok("write-discipline", {"plugin": plugin, "names": const_names})
                 continue
             # model-dependent names: cleanup with the same suffix must precede
